@@ -305,6 +305,17 @@ func init() {
 					}
 				}
 			}
+			// one sign for all nine entries now and then (magnitude helpers that forget Abs only show there)
+			if sg := rng.Intn(8); sg < 2 {
+				for a := 0; a < 3; a++ {
+					for b := 0; b < 3; b++ {
+						m[a][b] = math.Abs(m[a][b]) + 0.125
+						if sg == 0 {
+							m[a][b] = -m[a][b]
+						}
+					}
+				}
+			}
 			switch rng.Intn(12) {
 			case 0:
 				kind = "singular-repeated-column"
@@ -523,6 +534,16 @@ func init() {
 			if k > 0 {
 				pairs = append(pairs, [2]int{i, i - 1})
 			}
+		}
+		diag := []ciexyy.Color{xy(0.25, 0.25), xy(1.0/3, 1.0/3), xy(0.45, 0.45), xy(0.3, 0.3), xy(0.4, 0.4)}
+		for k, e := range diag {
+			wps = append(wps, e)
+			names = append(names, "diagonal")
+			i := len(wps) - 1
+			if k > 0 {
+				pairs = append(pairs, [2]int{i, i - 1}, [2]int{i - 1, i})
+			}
+			pairs = append(pairs, [2]int{i, k % len(named)})
 		}
 		for k := 0; k < 40; k++ {
 			w := wps[rng.Intn(len(named)+n)]
